@@ -718,3 +718,13 @@ v("c05-settle-task-cancelled-in-try", "C05", "FUTURE-EXCEPTION-GUARD", E + "incr
 # -- unfix variant of 304bda6 --------------------------------------------------------------------------------
 v("c20-unfix-default-on-output-typed-field", "C20", "SCHEMA-VALIDATION-TOTAL", U + "validate_input_value.py",
   "            elif is_input_type(field.type):\n", "            else:\n")
+
+# -- round 5: C14 ------------------------------------------------------------------------------------------
+v("c14-fragments-compared-pairwise", "C14", "ALL-PAIRS", OF,
+  "            for other_fragment_spread in fragment_spreads[i + 1 :]:\n", "            for other_fragment_spread in fragment_spreads[i + 1 : i + 2]:\n")
+v("c14-fragments-compared-by-combinations", "C14", "ALL-PAIRS", OF,
+  "            for other_fragment_spread in fragment_spreads[i + 1 :]:\n", "            for other_fragment_spread in fragment_spreads[1 + i :]:\n", expect="silent")
+v("c14-field-map-bare-read", "C14", "SHARED-MAP-READS", OF,
+  "        fields2 = field_map2.get(response_name)\n        if fields2:\n", "        fields2 = field_map2[response_name] if field_map2 else None\n        if fields2:\n")
+v("c14-field-map-read-after-membership", "C14", "SHARED-MAP-READS", OF,
+  "        fields2 = field_map2.get(response_name)\n        if fields2:\n", "        if response_name in field_map2:\n            fields2 = field_map2[response_name]\n        else:\n            fields2 = None\n        if fields2:\n", expect="silent")
